@@ -403,6 +403,11 @@ impl St {
                     fin!(s, Res::V(want))
                 }
             }
+            K::Await2 { a, b, wa, wb, .. } => {
+                if s.atomics[a] == wa && s.atomics[b] == wb {
+                    fin!(s, Res::U)
+                }
+            }
             K::AwaitSpun { a, want, .. } => {
                 // the explorer spins only when the SC value is wrong; the acceptor also when it is
                 // right (the real loop may have read a stale value)
